@@ -325,6 +325,8 @@ def _filter(eng, f, it):
 
 def _sorted(eng, it, key=None, reverse=False):
     items = eng.iterate(it)
+    if not isinstance(items, (list, tuple)):
+        raise Unsupported("sorted() of a sequence of symbolic length")
     keys = [eng.call(key, [x], {}) for x in items] if key is not None else items
     if any(is_sym(k) or isinstance(k, (Rec,)) or _has_sym(k) for k in keys):
         if eng.policy.get("generic_iteration"):
